@@ -97,6 +97,14 @@ Section CacheTestProofs.
     skips id id_eqb formula (@gen_stuck_solve bool) cache cores q = false.
   Proof. reflexivity. Qed.
 
+  Lemma unrefined_any_state : forall cache cores q,
+    strip (stuck_solve cache cores q) = strip (low false q) /\
+    strip (setup_solve cache cores q) = strip (low false q) /\
+    skips id id_eqb formula (@gen_stuck_solve bool) cache cores q = false.
+  Proof.
+    intros. exact (conj (stuck_any_state cache cores q) (conj (setup_any_state cache cores q) (stuck_never_skips cache cores q))).
+  Qed.
+
   (* ---------------- the refining consumer, any sound cache state *)
   Lemma assert_any_state : forall qs cores q,
     stable_queries id formula qs ->
@@ -213,6 +221,11 @@ Section CacheTestProofs.
     apply observe_eq in H. destruct H as [Ho [Hk Hn]].
     unfold CacheTestModel.test_verdict. rewrite Hk, Hn. apply strip_verdict. exact Ho.
   Qed.
+
+  Theorem test_transparent_both : forall ps,
+    low_core_sound2 (tqueries ps) -> stable_queries id formula (tqueries ps) -> off_complete_on ps ->
+    observe (test_run true ps) = observe (test_run false ps) /\ test_verdict true ps = test_verdict false ps.
+  Proof. intros ps H1 H2 H3. exact (conj (test_transparent ps H1 H2 H3) (test_transparent_verdict ps H1 H2 H3)). Qed.
 
   (* SOUNDNESS of a whole test: whenever a consumer is answered without the solver, its query is
      unsatisfiable in the semantics that consumer asks about *)
